@@ -238,129 +238,87 @@ def idx_const(b, place):
 
 
 def r6_codec(ctx, F):
+    """Id <-> SocketAddrV4: read with the byte-layout interpretation (A14), so byte tables, array
+    literals, slice patterns and shift/or arithmetic are all the same codec."""
+    from bytelayout import Layout, UNK
     rule = 'C17-R6'
     dec = F.one_body(r'^actor::spawn::<impl std::convert::From<actor::Id> for std::net::SocketAddrV4>::from$', 'decode')
     enc = F.one_body(r'^actor::spawn::<impl std::convert::From<std::net::SocketAddrV4> for actor::Id>::from$', 'encode')
     ctx.touched(dec)
     ctx.touched(enc)
-    # decode: arrays handed to Ipv4Addr::from and u16::from_be_bytes
-    def byte_index(b, o):
-        """index i when operand o is (a temporary holding) bytes[i]"""
-        if o.get('k') not in ('copy', 'move'):
-            return None
-        if o['place']['p']:
-            return idx_const(b, o['place'])
-        l = o['place']['l']
-        ds = [d for d in b.defs.get(l, []) if d[1] != 'call']
-        if len(ds) == 1 and ds[0][2]['rv']['k'] == 'use' and ds[0][2]['rv']['op']['k'] in ('copy', 'move'):
-            return idx_const(b, ds[0][2]['rv']['op']['place'])
-        return None
 
-    def array_sources(b, call):
-        """byte indexes handed to a constructor: one array argument, or one scalar argument per byte"""
-        if len(call.args) > 1:
-            return [byte_index(b, o) for o in call.args]
-        v = b.val(call.args[0])
-        out = []
-        if v.kind == 'agg' and v.key[0] == 'array':
-            for (i, si, st) in b.assigns(lambda st: st['rv']['k'] == 'agg' and st['rv']['agg'] == 'array'):
-                ops = st['rv']['ops']
-                if len(ops) == len(v.key[3]) and b.val({'k': 'move', 'place': st['lhs']}) == v:
-                    out = [byte_index(b, o) for o in ops]
-        return out
-    ipc = [c for c in dec.calls if (c.is_('From::from') and c.targs and c.targs[0].endswith('Ipv4Addr')) or
-           c.is_('Ipv4Addr::new')]
-    raw = lambda b_, ty, pre: [c for c in b_.calls if re.search(r'<impl %s>::%s_(be|le|ne)_bytes$' % (ty, pre), c.callee)]
-    pc = raw(dec, 'u16', 'from')
-    tb = raw(dec, 'u64', 'to')
-    if len(ipc) != 1 or len(pc) != 1 or len(tb) != 1:
-        raise AnchorMissing('decode: Ipv4Addr::from / u16::from_*_bytes / u64::to_*_bytes')
-    d_ip = array_sources(dec, ipc[0])
-    d_port = array_sources(dec, pc[0])
-    # encode: stores result[i] = octets[j] / port_bytes[j] / const 0
-    oct_ = enc.calls_to('Ipv4Addr::octets')
-    ptb = raw(enc, 'u16', 'to')
-    fb = raw(enc, 'u64', 'from')
-    if len(oct_) != 1 or len(ptb) != 1 or len(fb) != 1:
-        raise AnchorMissing('encode: octets / u16::to_*_bytes / u64::from_*_bytes')
-    e_ip, e_port, zero = {}, {}, set()
-    res_local = fb[0].args[0]['place']['l'] if fb[0].args[0]['k'] in ('copy', 'move') else None
-    for (i, si, st) in enc.assigns(lambda st: st['lhs']['p'] and isinstance(st['lhs']['p'][-1], dict)
-                                   and ('index' in st['lhs']['p'][-1] or 'cindex' in st['lhs']['p'][-1])):
-        pos = idx_const(enc, st['lhs'])
-        rv = st['rv']
-        if rv['k'] == 'use' and rv['op']['k'] == 'const':
-            if rv['op'].get('val') == 0:
-                zero.add(pos)
-            continue
-        if rv['k'] == 'use':
-            l = rv['op']['place']['l']
-            ds = [d for d in enc.defs.get(l, []) if d[1] != 'call']
-            if len(ds) == 1 and ds[0][2]['rv']['k'] == 'use':
-                src = ds[0][2]['rv']['op']['place']
-                j = idx_const(enc, src)
-                base = enc.local_val(src['l'])
-                if base.kind == 'call' and base.key == oct_[0].bb:
-                    e_ip[j] = pos
-                elif base.kind == 'call' and base.key == ptb[0].bb:
-                    e_port[j] = pos
-    for _ in range(4):
-        if res_local is None:
-            break
-        ds = [d for d in enc.defs.get(res_local, []) if d[1] != 'call' and not d[2]['lhs']['p']]
-        if len(ds) == 1 and ds[0][2]['rv']['k'] == 'use' and ds[0][2]['rv']['op'].get('k') in ('copy', 'move') and \
-                not ds[0][2]['rv']['op']['place']['p']:
-            res_local = ds[0][2]['rv']['op']['place']['l']
-        else:
-            break
-    if res_local is not None:
-        # array literal form: [0, 0, octets[0], .., port_bytes[1]]
-        lits = [d for d in enc.defs.get(res_local, []) if d[1] != 'call' and not d[2]['lhs']['p'] and
-                d[2]['rv']['k'] == 'agg' and d[2]['rv'].get('agg') == 'array']
-        for d in lits:
-            for pos, o in enumerate(d[2]['rv']['ops']):
-                if o.get('k') == 'const':
-                    if o.get('val') == 0:
-                        zero.add(pos)
-                    continue
-                src = None
-                if o['place']['p']:
-                    src = o['place']
-                else:
-                    ds = [x for x in enc.defs.get(o['place']['l'], []) if x[1] != 'call']
-                    if len(ds) == 1 and ds[0][2]['rv']['k'] == 'use' and ds[0][2]['rv']['op']['k'] in ('copy', 'move'):
-                        src = ds[0][2]['rv']['op']['place']
-                    elif len(ds) == 1 and ds[0][2]['rv']['k'] == 'use' and ds[0][2]['rv']['op']['k'] == 'const' and \
-                            ds[0][2]['rv']['op'].get('val') == 0:
-                        zero.add(pos)
-                if src is not None:
-                    j = idx_const(enc, src)
-                    base = enc.local_val(src['l'])
-                    if base.kind == 'call' and base.key == oct_[0].bb:
-                        e_ip[j] = pos
-                    elif base.kind == 'call' and base.key == ptb[0].bb:
-                        e_port[j] = pos
-    ok_ip = len(d_ip) == 4 and all(e_ip.get(j) == d_ip[j] for j in range(4))
-    ok_port = len(d_port) == 2 and all(e_port.get(j) == d_port[j] for j in range(2))
+    # ---- encode: which id byte does each address byte go to?
+    def enc_src(c):
+        if isinstance(c, tuple):
+            return None
+        if c.is_('Ipv4Addr::octets'):
+            return [('ip', j) for j in range(4)]
+        if c.is_('SocketAddrV4::port'):
+            return [('port', 0), ('port', 1)]          # most significant byte first
+        if c.is_('Ipv4Addr::to_bits') or (c.is_('From::from') and c.targs and c.targs[0] == 'u32' and
+                                           'Ipv4Addr' in ''.join(c.targs)):
+            return [('ip', j) for j in range(4)]
+        return None
+    le = Layout(enc, enc_src)
+    ids = [st for (i, si, st) in enc.assigns(lambda st: st['lhs']['l'] == 0 and st['rv']['k'] == 'agg' and
+                                             st['rv'].get('adt', '').endswith('actor::Id'))]
+    if len(ids) != 1:
+        raise AnchorMissing('encode: construction of Id')
+    id_bytes = le.operand(ids[0]['rv']['ops'][0])
+    if len(id_bytes) != 8:
+        raise AnchorMissing('encode: the Id payload is not read as 8 bytes (%r)' % (id_bytes,))
+    e_pos = dict((sym, k) for k, sym in enumerate(id_bytes) if isinstance(sym, tuple) and sym[0] in ('ip', 'port'))
+
+    # ---- decode: which id byte is each address byte read from?
+    def dec_src(c):
+        if isinstance(c, tuple):
+            return [('id', k) for k in range(8)] if c == ('arg', 1) else None
+        return None
+    ld = Layout(dec, dec_src)
+    news = dec.calls_to('SocketAddrV4::new')
+    if len(news) != 1:
+        raise AnchorMissing('decode: SocketAddrV4::new')
+    ipv = noref(dec.val(news[0].args[0]))
+    ipc = dec.call_at(ipv.key) if ipv.kind == 'call' else None
+    if ipc is None:
+        raise AnchorMissing('decode: construction of the Ipv4Addr')
+    if len(ipc.args) == 4:
+        ip_bytes = [(ld.operand(a) + [UNK])[0] for a in ipc.args]
+    else:
+        ip_bytes = ld.operand(ipc.args[0])
+    port_bytes = ld.operand(news[0].args[1])
+    d_pos = {}
+    for j, sym in enumerate(ip_bytes[:4]):
+        if isinstance(sym, tuple) and sym[0] == 'id':
+            d_pos[('ip', j)] = sym[1]
+    for j, sym in enumerate(port_bytes[:2]):
+        if isinstance(sym, tuple) and sym[0] == 'id':
+            d_pos[('port', j)] = sym[1]
+    ip_keys = [('ip', j) for j in range(4)]
+    port_keys = [('port', j) for j in range(2)]
+    ok_ip = len(ip_bytes) == 4 and all(k in e_pos and e_pos[k] == d_pos.get(k) for k in ip_keys)
+    ok_port = len(port_bytes) == 2 and all(k in e_pos and e_pos[k] == d_pos.get(k) for k in port_keys)
     ctx.check(ok_ip, rule, 'ip-bytes-agree', enc,
-              good='IPv4 octet j is written to and read from the same byte of the id (%s)' % d_ip,
+              good='IPv4 octet j is written to and read from the same byte of the id (%s)' %
+                   [e_pos.get(k) for k in ip_keys],
               bad='Id <-> SocketAddrV4: the IPv4 octets are written to bytes %s but read from bytes %s: the '
-                  'conversion is not a bijection' % (e_ip, d_ip))
+                  'conversion is not a bijection' % ([e_pos.get(k) for k in ip_keys], [d_pos.get(k) for k in ip_keys]))
     ctx.check(ok_port, rule, 'port-bytes-agree', enc,
-              good='port byte j is written to and read from the same byte of the id (%s)' % d_port,
-              bad='Id <-> SocketAddrV4: the port bytes are written to bytes %s but read from bytes %s' % (e_port, d_port))
-    used = set(e_ip.values()) | set(e_port.values())
-    ctx.check(len(used) == 6 and used == set(range(8)) - {0, 1} or used | zero == set(range(8)), rule,
-              'unused-bytes-zero', enc,
+              good='port byte j is written to and read from the same byte of the id (%s)' %
+                   [e_pos.get(k) for k in port_keys],
+              bad='Id <-> SocketAddrV4: the port bytes are written to bytes %s but read from bytes %s' %
+                  ([e_pos.get(k) for k in port_keys], [d_pos.get(k) for k in port_keys]))
+    rest = [k for k, sym in enumerate(id_bytes) if not (isinstance(sym, tuple) and sym[0] in ('ip', 'port'))]
+    ctx.check(all(id_bytes[k] == 0 for k in rest) and len(rest) == 2, rule, 'unused-bytes-zero', enc,
               good='the remaining bytes of the id are zero',
-              bad='Id <-> SocketAddrV4: bytes %s of the id are neither address bytes nor zero' %
-                  sorted(set(range(8)) - used - zero))
-    en = lambda c: re.search(r'_(be|le|ne)_bytes$', c.callee).group(1)
-    ok = en(tb[0]) == en(fb[0]) and en(pc[0]) == en(ptb[0])
-    ctx.check(ok, rule, 'endianness-agrees', enc,
-              good='u64 and u16 conversions use the same endianness in both directions',
-              bad='Id <-> SocketAddrV4: endianness differs between directions (u64 %s/%s, u16 %s/%s)' %
-                  (en(tb[0]), en(fb[0]), en(pc[0]), en(ptb[0])))
+              bad='Id <-> SocketAddrV4: bytes %s of the id are neither address bytes nor zero (%s)' %
+                  (rest, [id_bytes[k] for k in rest]))
+    # endianness: the layout interpretation already honours be/le per call; both directions agree when
+    # the byte positions agree, so this instance records that nothing was left unknown
+    ctx.check(UNK not in id_bytes and UNK not in ip_bytes and UNK not in port_bytes, rule, 'endianness-agrees', enc,
+              good='every byte of both conversions is accounted for (big-/little-endian calls included)',
+              bad='Id <-> SocketAddrV4: some bytes could not be accounted for (encode %s, decode ip %s port %s)' %
+                  (id_bytes, ip_bytes, port_bytes))
 
 
 def run(ctx):
